@@ -16,7 +16,17 @@ import sys
 import time
 
 ROOT = os.path.dirname(os.path.dirname(os.path.abspath(__file__)))
-REPO = os.environ.get('VERIF_REPO', '/repo')
+def _repo_path():
+    # the repository under test: $VERIF_REPO, else the path in <root>/.repo_path (scratch worlds), else /repo
+    if os.environ.get('VERIF_REPO'):
+        return os.environ['VERIF_REPO']
+    p = os.path.join(ROOT, '.repo_path')
+    if os.path.exists(p):
+        return open(p).read().strip()
+    return '/repo'
+
+
+REPO = _repo_path()
 CACHE = os.path.join(ROOT, '.cache')
 COQ = os.path.join(ROOT, 'coq')
 THEORIES = os.path.join(COQ, 'theories')
